@@ -27,16 +27,11 @@ def execute(script):
 
 def describe():
     return {
-        'rule': 'one run = one seeded script of 8-60 operations (honest blocks assembled by the node on any stored '
-                'tip, header/spend/value/structure forgeries sealed with recomputed merkle root, evidence and nonce, '
-                'stated-target probes over 256-bit targets) against CoinState.add_block; a case is distinct by '
-                '(forgery kind x base kind x delivery form), base configuration, and bit-length class of '
-                '(previous target, elapsed) for stated-target probes; non-trivial = reached the in-state rules',
+        'rule': 'one run = one seeded script of 8-60 operations (honest blocks with transactions on any stored tip, spend/value/header/structure forgeries sealed with recomputed merkle root, evidence and nonce, snapshots, re-offers) against CoinState.add_block; a case is distinct by (forgery kind x base kind x delivery form) and base configuration; non-trivial = the candidate reached the in-chain rules (its stand-alone checks, merkle root, evidence and proof of work are valid by construction)',
         'components': LC.COMPONENTS,
         'assumptions': ['scrypt replaced by a fast hash (C18 runs the real one)',
                         'hollow base: heights below the base tip are unvalidated fillers',
                         'reference target/time/height rules are independent code; evidence and merkle root are '
                         'recomputed with the repo constructors as tools'],
-        'expected_probes': ['probe:retarget_boundary_crossed', 'probe:boundary_forgery', 'probe:fork_created',
-                            'probe:reorganisation', 'stated_target_cases'],
+        'expected_probes': ['probe:fork_created', 'probe:reorganisation', 'probe:other_fork_output_spent_attempt', 'probe:block_with_transactions'],
     }
